@@ -239,7 +239,7 @@ JNP.ones_like = _ones_like
 JNP.zeros_like = _zeros_like
 
 
-def _arange(a, b=None, step=None):
+def _arange(a, b=None, step=None, dtype=None):
     _u("jnp.arange(a,b)[j] = a+j, length b-a (unit step)")
     if step not in (None, 1):
         raise OutsideSubset("arange with step")
@@ -255,7 +255,7 @@ def _arange(a, b=None, step=None):
 JNP.arange = _arange
 
 
-def _linspace(start, stop, num=50, endpoint=True):
+def _linspace(start, stop, num=50, endpoint=True, dtype=None):
     _u("jnp.linspace(a,b,n,endpoint)[j] = a + j*(b-a)/(n-1 or n)")
     a, b = smt.R(start), smt.R(stop)
     n = _as_dim(num)
